@@ -14,7 +14,7 @@ pub fn instances(tier: &str) -> Vec<String> {
     // the real Laguerre iteration, ONE pass from an arbitrary iterate (inductive step of the loop; section 4 of DESIGN.md)
     for side in ["p", "m", "exit"] {
         v.push(format!("laguer_pass:m=2,co=cmplx,side={}", side));
-        if tier == "thorough" { v.push(format!("laguer_pass:m=3,co=cmplx,side={}", side)); }
+        if tier == "thorough" { for m in 3..=6 { v.push(format!("laguer_pass:m={},co=cmplx,side={}", m, side)); } }
     }
     v
 }
